@@ -5,6 +5,7 @@ import (
 	"encoding/json"
 	"fmt"
 	"io"
+	"math"
 	"mime/multipart"
 	"strconv"
 
@@ -145,7 +146,14 @@ func prepareMultipart(payload []byte, uploadMap UploadMap) (body []byte, content
 			return b.Bytes(), w.FormDataContentType(), e
 		}
 
-		_, e = io.Copy(fw, uploadVariable.upload.File)
+		// one file can go to several services: where the file allows it, it's read from the
+		// start through a reader of its own, not through the offset all requests share
+		var file io.Reader = uploadVariable.upload.File
+		if readerAt, ok := uploadVariable.upload.File.(io.ReaderAt); ok {
+			file = io.NewSectionReader(readerAt, 0, math.MaxInt64)
+		}
+
+		_, e = io.Copy(fw, file)
 		if e != nil {
 			return b.Bytes(), w.FormDataContentType(), e
 		}
